@@ -3,6 +3,7 @@ package main
 import (
 	"encoding/json"
 	"fmt"
+	"go/types"
 	"os"
 	"path/filepath"
 	"sort"
@@ -32,6 +33,7 @@ func runC10(c *Ctx) {
 	ruleNoReadAfterHandler(c, x, scope)
 	ruleHandlerErrorKeepsConn(c, "R10.g")
 	ruleArgumentIndexSafety(c, "R10.h")
+	ruleIntegersNotThroughFloats(c, scope)
 	c.assume("surplus trailing arguments are ignored by most executors (the property speaks of lacking/ill-formed arguments)")
 }
 
@@ -1248,4 +1250,38 @@ func ruleArgumentIndexSafety(c *Ctx, rid string) {
 	}
 	sort.Slice(scope, func(i, j int) bool { return c.P.key(scope[i]) < c.P.key(scope[j]) })
 	rulePanicSitesIn(c, rid, scope, "argument-index-sites", 3)
+}
+
+// ruleIntegersNotThroughFloats: R10.i — a position that takes an integer must reject fractional,
+// exponent and out-of-range tokens. Decoding it with ParseFloat and converting with int()
+// accepts "1.5" and "1e3", and turns 9223372036854775807 into an implementation-defined value.
+func ruleIntegersNotThroughFloats(c *Ctx, scope []*ssa.Function) {
+	rid := "R10.i"
+	c.rule(rid, "in the executors and the argument helpers of package redis no floating-point value is converted to an integer type: integer arguments are decoded by the integer accessors / strconv.Atoi / ParseInt, never by ParseFloat followed by int()")
+	n, bad := 0, 0
+	for _, fn := range scope {
+		allInstrs(fn, func(ins ssa.Instruction) {
+			cv, ok := ins.(*ssa.Convert)
+			if !ok {
+				return
+			}
+			from, isB := cv.X.Type().Underlying().(*types.Basic)
+			to, isB2 := cv.Type().Underlying().(*types.Basic)
+			if !isB || !isB2 {
+				return
+			}
+			if from.Info()&types.IsFloat != 0 && to.Info()&types.IsInteger != 0 {
+				n++
+				if _, isC := cv.X.(*ssa.Const); isC {
+					return
+				}
+				bad++
+				c.bad(rid, fmt.Sprintf("%s/float-to-int#%d", c.P.key(fn), bad), c.P.instrPos(cv), "a floating-point value is converted to an integer on the way to the handler: fractional and exponent tokens are accepted where an integer is required, and values beyond 2^63 convert to an arbitrary integer")
+			}
+		})
+	}
+	c.count("float-to-int-conversions", n)
+	if bad == 0 {
+		c.ok(rid, "no-float-to-int", "", "no integer argument is derived from a floating-point value")
+	}
 }
